@@ -533,8 +533,11 @@ def r11_shape_typestate(facts):
         c.floor("flatten_to", 0, 1)
     else:
         ok, why = _flatten_to_summary(m.facts, ft)
-        c.check(ok, "summary:flatten_to", "%s:%d" % (F.rel(ft["file"]), ft["sp"][0]),
-                "flatten_to returns self only under `self.dimensions == dimensions`, otherwise a sliced_op whose output dimensions are the parameter (flatten_count 0)", why)
+        if ok is None:
+            c.unk("summary:flatten_to", "%s:%d" % (F.rel(ft["file"]), ft["sp"][0]), why)
+        else:
+            c.check(ok, "summary:flatten_to", "%s:%d" % (F.rel(ft["file"]), ft["sp"][0]),
+                    "flatten_to returns self only under `self.dimensions == dimensions`, otherwise a sliced_op whose output dimensions are the parameter (flatten_count 0)", why)
     return c
 
 
@@ -597,6 +600,7 @@ def _flatten_to_summary(facts, ft):
     if not paths:
         return False, "flatten_to has no recognisable return value"
     n_self = n_red = 0
+    pending_unk = None
     for ctx, e in paths:
         e0 = peel(e) if strip(e).get("k") != "Call" else strip(e)
         if var_of(e0) == selfv and strip(e).get("k") in ("VarRef", "Use"):
@@ -625,10 +629,239 @@ def _flatten_to_summary(facts, ft):
             if var_of(peel(t["args"][1])) == dimv or any(x.get("k") in ("VarRef",) and x["v"] == dimv for x in walk(t["args"][1])):
                 n_red += 1
                 continue
-        return False, "a return path of flatten_to is neither `self` under the equal-dimensions guard nor a sliced_op to the target dimensions: %s" % show(t)[:100]
+        # another way of producing the result (a hand-written reduction next to the primitive)
+        alt = _judge_alternative_reducer(facts, ft, root, ctx, e, t, selfv, dimv, binds)
+        if alt[0] is True:
+            n_red += 1
+            pending_unk = pending_unk or alt[1]
+            continue
+        return alt
     if n_red == 0:
         return False, "flatten_to never reduces"
+    if pending_unk:
+        return None, pending_unk
     return True, ""
+
+
+def _judge_alternative_reducer(facts, ft, root, ctx, e, t, selfv, dimv, binds):
+    """A return path of flatten_to that builds its result directly (not through the reduction primitive).
+    -> (False, why): definitely wrong;  (True, why): shape right, values not judged (why = abstention text)
+    Shape clause: the result's dimensions are the target parameter.  Value clause, decided only by an information argument:
+    if everything the path (and its guards) reads of the target dimensions is symmetric in their order (len, product, sum,
+    the copy into the result), the path computes the same values for [1,3] and [3,1] (from [2,3,3]) or for [2,1,2] and
+    [2,2,1] (from [2,2,2]) although the sums over the broadcast positions differ: it is wrong for one of them."""
+    CTOR = "<%s as core::convert::From<(" % ARRAY
+    dims_e = None
+    if t.get("k") == "Call" and (resolved(t) or "").startswith(CTOR) and t["args"]:
+        tup = strip(t["args"][0])
+        if tup.get("k") == "Tuple" and len(tup["fields"]) == 2:
+            dims_e = tup["fields"][0]
+    if dims_e is None:
+        return False, "a return path of flatten_to is neither `self` under the equal-dimensions guard, nor a sliced_op / reshape to the target dimensions, nor an array built with them: %s" % show(t)[:100]
+    d0 = peel(dims_e)
+    hops = 0
+    while isinstance(d0, dict) and hops < 6:
+        if d0.get("k") in ("VarRef", "UpvarRef") and d0["v"] != dimv and d0["v"] in binds and binds[d0["v"]][0] == "let" and binds[d0["v"]][1] is not None:
+            d0 = peel(binds[d0["v"]][1])
+        elif d0.get("k") == "Call" and (callee(d0) or "").rsplit("::", 1)[-1] in ("to_vec", "to_owned", "clone", "into", "from", "collect", "copied", "cloned", "iter") and d0["args"]:
+            d0 = peel(d0["args"][0])
+        else:
+            break
+        hops += 1
+    if var_of(d0) != dimv:
+        return False, "a return path of flatten_to builds its result with dimensions other than the target parameter: %s" % show(dims_e)[:80]
+    # ---- how the target dimensions are read on this path: its guards and the branch that ends in this return
+    SYM_TERMINALS = ("len", "product", "sum", "count", "is_empty")
+    PASS = ("iter", "into_iter", "copied", "cloned", "deref", "as_slice", "as_ref", "borrow", "to_vec", "to_owned", "clone")
+    parents = {}
+    for n in walk(root):
+        for ch in F.kids(n):
+            if isinstance(ch, dict):
+                parents[id(ch)] = n
+    region = []
+    for cond, truth in path_facts(ctx):
+        region.append(cond)
+    # the statements of the innermost block that contains the return value
+    blk = None
+    p_ = parents.get(id(e)) or parents.get(id(strip(e)))
+    cur = strip(e)
+    while cur is not None:
+        par = parents.get(id(cur))
+        if par is None:
+            break
+        if par.get("k") == "Block":
+            blk = par
+            break
+        cur = par
+    if blk is not None:
+        for st in blk["stmts"]:
+            region.append(st.get("init") if st["s"] == "let" else st.get("e"))
+        if blk.get("e") is not None:
+            region.append(blk["e"])
+    else:
+        region.append(e)
+    # lets outside the block that the region mentions (e.g. `flatten_dimension_count`)
+    for _ in range(2):
+        for r_ in list(region):
+            for x in walk(r_) if isinstance(r_, dict) else []:
+                if x.get("k") in ("VarRef", "UpvarRef") and x["v"] in binds and binds[x["v"]][0] == "let" and isinstance(binds[x["v"]][1], dict) \
+                        and not any(binds[x["v"]][1] is y for y in region):
+                    region.append(binds[x["v"]][1])
+    positional = None
+    n_reads = 0
+    for r_ in region:
+        if not isinstance(r_, dict):
+            continue
+        for x in walk(r_):
+            if not (x.get("k") in ("VarRef", "UpvarRef") and x["v"] == dimv):
+                continue
+            if any(x is y for y in walk(dims_e)):
+                continue            # the copy into the result
+            n_reads += 1
+            # climb: the read is symmetric if the first call that is not a pass-through is a symmetric terminal or an equality with self.dimensions
+            cur = x
+            verdict = None
+            for _ in range(10):
+                par = parents.get(id(cur))
+                if par is None:
+                    verdict = "lost"
+                    break
+                k = par.get("k")
+                if k in ("Borrow", "Deref", "Use", "Scope", "PointerCoercion", "Cast"):
+                    cur = par
+                    continue
+                if k == "Call":
+                    tail = (callee(par) or "").rsplit("::", 1)[-1]
+                    if tail in PASS and par["args"] and any(cur is y for y in walk(par["args"][0])):
+                        cur = par
+                        continue
+                    if tail in SYM_TERMINALS:
+                        verdict = "sym"
+                        break
+                    if tail in ("eq", "ne") and (callee(par) or "").startswith("core::cmp::PartialEq"):
+                        verdict = "sym"
+                        break
+                    verdict = "pos:" + tail
+                    break
+                if k == "Binary" and par.get("op") in ("Eq", "Ne"):
+                    verdict = "sym"
+                    break
+                verdict = "pos:" + str(k)
+                break
+            if verdict != "sym":
+                positional = positional or (x, verdict)
+    shape_ok_text = "its dimensions are the target's"
+    if positional is not None or n_reads == 0:
+        return True, ("flatten_to has a return path that builds its result directly from the buffer (`%s`): %s, but whether its values are the sums over the broadcast "
+                      "positions is not decided (the path reads the target dimensions by position)" % (show(t)[:60], shape_ok_text))
+    # ---- all reads symmetric: is the path reached for a pair of targets that differ only in the order of their dimensions?
+    witnesses = [([2, 3, 3], [1, 3], [3, 1]), ([2, 2, 2], [2, 1, 2], [2, 2, 1]), ([2, 2, 3, 3], [1, 3], [3, 1])]
+
+    def ival(x, S, T, depth=0):
+        x = peel(x)
+        if not isinstance(x, dict) or depth > 12:
+            return None
+        k = x.get("k")
+        if k == "Literal":
+            v = lit_value(x)
+            return v if isinstance(v, (int, bool)) else None
+        if k in ("VarRef", "UpvarRef"):
+            if x["v"] in binds and binds[x["v"]][0] == "let" and isinstance(binds[x["v"]][1], dict):
+                return ival(binds[x["v"]][1], S, T, depth + 1)
+            return None
+        if k == "Call":
+            tail = (callee(x) or "").rsplit("::", 1)[-1]
+            if tail in ("len", "product") and x["args"]:
+                a = peel(x["args"][0])
+                while isinstance(a, dict) and a.get("k") == "Call" and (callee(a) or "").rsplit("::", 1)[-1] in PASS and a["args"]:
+                    a = peel(a["args"][0])
+                lst = None
+                if var_of(a) == dimv:
+                    lst = T
+                else:
+                    r_, ch = field_chain(a)
+                    if var_of(r_) == selfv and ch == ["dimensions"]:
+                        lst = S
+                    elif var_of(r_) == selfv and ch == ["values"]:
+                        lst = [1] * 0
+                        if tail == "len":
+                            n_ = 1
+                            for d in S:
+                                n_ *= d
+                            return n_
+                if lst is None:
+                    return None
+                if tail == "len":
+                    return len(lst)
+                n_ = 1
+                for d in lst:
+                    n_ *= d
+                return n_
+            if tail == "saturating_sub" and len(x["args"]) == 2:
+                a, b = ival(x["args"][0], S, T, depth + 1), ival(x["args"][1], S, T, depth + 1)
+                return None if a is None or b is None else max(0, a - b)
+            if tail in ("eq", "ne") and len(x["args"]) == 2:
+                sides = x["args"]
+                return _veq(sides, S, T, tail == "ne", depth)
+            return None
+        if k == "Binary":
+            if x["op"] in ("Eq", "Ne"):
+                v = _veq([x["l"], x["r"]], S, T, x["op"] == "Ne", depth)
+                if v is not None:
+                    return v
+            a, b = ival(x["l"], S, T, depth + 1), ival(x["r"], S, T, depth + 1)
+            if a is None or b is None:
+                return None
+            op = x["op"]
+            try:
+                return {"Add": a + b, "Sub": a - b, "Mul": a * b, "Div": a // b if b else None, "Eq": a == b, "Ne": a != b, "Lt": a < b, "Le": a <= b, "Gt": a > b, "Ge": a >= b}.get(op)
+            except Exception:
+                return None
+        if k == "Unary" and x.get("op") == "Not":
+            a = ival(x["e"], S, T, depth + 1)
+            return None if a is None else (not a)
+        if k == "LogicalOp":
+            a, b = ival(x["l"], S, T, depth + 1), ival(x["r"], S, T, depth + 1)
+            if a is None or b is None:
+                return None
+            return (a and b) if x["op"] == "And" else (a or b)
+        return None
+
+    def _veq(sides, S, T, neg, depth):
+        lists = []
+        for sd in sides:
+            a = peel(sd)
+            while isinstance(a, dict) and a.get("k") == "Call" and (callee(a) or "").rsplit("::", 1)[-1] in PASS and a["args"]:
+                a = peel(a["args"][0])
+            if var_of(a) == dimv:
+                lists.append(T)
+            else:
+                r_, ch = field_chain(a) if isinstance(a, dict) else (None, None)
+                if r_ is not None and var_of(r_) == selfv and ch == ["dimensions"]:
+                    lists.append(S)
+        if len(lists) == 2:
+            return (lists[0] != lists[1]) if neg else (lists[0] == lists[1])
+        return None
+    for S, T1, T2 in witnesses:
+        reach = []
+        for T in (T1, T2):
+            ok_ = True
+            for cond, truth in path_facts(ctx):
+                v = ival(cond, S, T)
+                if v is None:
+                    ok_ = None
+                    break
+                if bool(v) != truth:
+                    ok_ = False
+                    break
+            reach.append(ok_)
+        if reach == [True, True]:
+            return False, ("flatten_to has a return path that builds its result directly from the buffer and reads the target dimensions only through %s: it computes the same values "
+                           "when a delta of dimensions %s is reduced to %s and to %s, although the sums over the broadcast positions differ (one collapses dimension %d, the other dimension %d): "
+                           "the gradient of a broadcast operand is wrong for at least one of them"
+                           % ("their count and product", S, T1, T2, len(S) - len(T1) + T1.index(1), len(S) - len(T2) + T2.index(1)))
+    return True, ("flatten_to has a return path that builds its result directly from the buffer (`%s`): %s, but whether its values are the sums over the broadcast positions is not decided"
+                  % (show(t)[:60], shape_ok_text))
 
 
 # ------------------------------------------------------------------ R14
